@@ -375,6 +375,19 @@ theorem c15_sale_data_serialize (ops : CellOps R) (s : SaleData) {ch : Chunk R} 
     (hfit : ch.1.length ≤ 1023 ∧ ch.2.length ≤ 4) : Message.serializeSaleData ops s = ops.make ch.1 ch.2 :=
   serializeSaleData_eq ops s h hfit
 
+/-- with marketplace / nft / owner addresses that are `addr_none` or `addr_std` without anycast it always fits (at most
+1 + 32 + 3·267 + 124 + 1 = 959 bits, one reference), so `NftItemSaleData.serialize` never fails once the fields are in range
+and the fees fit their own cell.  (Three anycast addresses and a maximal price make 1064 bits: that value has no cell.) -/
+theorem c15_sale_data_never_overflows (ops : CellOps R) (ht : ops.Total) (s : SaleData) {ch : Chunk R}
+    (h : encSaleData ops s = some ch) (hm : PlainAddr s.marketplace) (hn : PlainAddr s.nft) (ho : PlainAddr s.nftOwner) :
+    ch.1.length ≤ 959 ∧ ch.2.length ≤ 1 ∧ (Message.serializeSaleData ops s).isSome := by
+  obtain ⟨hb, hr⟩ := size_encSaleData ops s hm hn ho
+  rw [(enc_some_sizes h).1] at hb
+  rw [(enc_some_sizes h).2] at hr
+  refine ⟨hb, hr, ?_⟩
+  rw [serializeSaleData_eq ops s h ⟨by omega, by omega⟩]
+  exact ht _ _ (by omega) (by omega)
+
 theorem c15_sale_data_decodes (ops : CellOps R) (hl : ops.Lawful) (s : SaleData) (hwf : s.WF) {ch : Chunk R} {c : R}
     (h : encSaleData ops s = some ch) (hc : ops.make ch.1 ch.2 = some c) : decodeSaleData ops c = some s :=
   decode_of_rt ops hl (rt_saleData ops hl s hwf) h hc
@@ -609,9 +622,8 @@ example : ∃ c, Message.serializeSaleData tops sale0 = some c ∧ decodeSaleDat
     Message.deserializeSaleData tops c = some sale0 := by
   obtain ⟨ch, h⟩ := Option.isSome_iff_exists.mp (show (encSaleData tops sale0).isSome = true by decide +kernel)
   have hfit : ch.1.length ≤ 1023 ∧ ch.2.length ≤ 4 := by
-    have h1 : Enc.nbits (encSaleData tops sale0) ≤ 1023 := by decide +kernel
-    have h2 : Enc.nrefs (encSaleData tops sale0) ≤ 4 := by decide +kernel
-    rw [(enc_some_sizes h).1] at h1; rw [(enc_some_sizes h).2] at h2; exact ⟨h1, h2⟩
+    obtain ⟨h1, h2, _⟩ := c15_sale_data_never_overflows tops tops_total sale0 h (Or.inr ⟨_, _, rfl⟩) (Or.inr ⟨_, _, rfl⟩) (Or.inl rfl)
+    omega
   have hs := c15_sale_data_serialize tops sale0 h hfit
   have hd := c15_sale_data_decodes tops tops_lawful sale0 (by simp [sale0, fees0, SaleData.WF, SaleFees.WF, AddrWF]) h
     (c := T.mk ch.1 ch.2) rfl
